@@ -231,21 +231,30 @@ func WriteSfm(sfmData *structs.SegFullMeta) {
 		return
 	}
 
-	sfmFd, err := os.OpenFile(sfmFname, os.O_WRONLY|os.O_CREATE|os.O_TRUNC, 0644)
+	// Write to a temp file and rename it, so a crash never leaves a truncated
+	// or partial sfm in place of the previous one.
+	tmpSfmFname := sfmFname + ".tmp"
+	sfmFd, err := os.OpenFile(tmpSfmFname, os.O_WRONLY|os.O_CREATE|os.O_TRUNC, 0644)
 	if err != nil {
-		log.Errorf("WriteSfm: failed to open a sfm filename=%v: err=%v", sfmFname, err)
+		log.Errorf("WriteSfm: failed to open a temp sfm filename=%v: err=%v", tmpSfmFname, err)
 		return
 	}
 	defer sfmFd.Close()
 
 	if _, err := sfmFd.Write(sfmJson); err != nil {
-		log.Errorf("WriteSfm: failed to write sfm: %v: err: %v", sfmFname, err)
+		log.Errorf("WriteSfm: failed to write sfm: %v: err: %v", tmpSfmFname, err)
 		return
 	}
 
 	err = sfmFd.Sync()
 	if err != nil {
-		log.Errorf("WriteSfm: failed to sync sfm: %v: err: %v", sfmFname, err)
+		log.Errorf("WriteSfm: failed to sync sfm: %v: err: %v", tmpSfmFname, err)
+		return
+	}
+
+	err = os.Rename(tmpSfmFname, sfmFname)
+	if err != nil {
+		log.Errorf("WriteSfm: failed to rename %v to %v: err: %v", tmpSfmFname, sfmFname, err)
 		return
 	}
 }
